@@ -186,20 +186,21 @@ func refSteps(data any, steps []c09Step) (any, error) {
 		}
 		cp := map[string]any{}
 		for _, p := range s.pipes {
-			v := obj[p.key]
+			key := strings.Trim(p.key, "'") // a quoted key is the text between the quotes
+			v := obj[key]
 			switch p.typ {
 			case "":
-				cp[p.key] = v
+				cp[key] = v
 			case "string":
 				switch x := v.(type) {
 				case float64:
 					if x == float64(int64(x)) {
-						cp[p.key] = strconv.FormatInt(int64(x), 10)
+						cp[key] = strconv.FormatInt(int64(x), 10)
 					} else {
-						cp[p.key] = fmt.Sprintf("%f", x)
+						cp[key] = fmt.Sprintf("%f", x)
 					}
 				default:
-					cp[p.key] = fmt.Sprintf("%v", v)
+					cp[key] = fmt.Sprintf("%v", v)
 				}
 			case "number":
 				str, ok := v.(string)
@@ -210,7 +211,7 @@ func refSteps(data any, steps []c09Step) (any, error) {
 				if err != nil {
 					return nil, errRef
 				}
-				cp[p.key] = n
+				cp[key] = n
 			default:
 				return nil, errRef
 			}
@@ -300,9 +301,9 @@ func refSegments(data any, segs []c09Segment) (any, error) {
 
 func c09Docs() []string {
 	return []string{
-		`{"a":{"b":{"x":1,"y":"7"},"x":"2.5"},"b":[[1,2],[3,4,5],[]],"x":[{"x":1,"y":"a","b":[1,2]},{"x":2,"b":[3]},null,{"y":"c","x":1}],"a.b":"lit","n":null,"s":"str","[0]":"bracket","{x}":{"x":9}}`,
+		`{"a":{"b":{"x":1,"y":"7"},"x":"2.5"},"b":[[1,2],[3,4,5],[]],"x":[{"x":1,"y":"a","b":[1,2]},{"x":2,"b":[3]},null,{"y":"c","x":1}],"a.b":"lit","n":null,"s":"str","[0]":"bracket","{x}":{"x":9},"p::q":{"x":5,"a.b":-0.5}}`,
 		`{"a":[{"b":[{"x":1},{"x":2}]},{"b":[{"x":3}]},{"b":[]}],"b":[[[1],[2,3]],[[4]]],"x":{"x":{"x":[1,2,3]}},"s":4}`,
-		`{"a":[1,[2,3],[[4]]],"b":[{"y":"1"},{"y":"zz"},{"y":2}],"x":[],"a.b":{"x":[true,false]}}`,
+		`{"a":[1,[2,3],[[4]]],"b":[{"y":"1"},{"y":"zz"},{"y":2},{"y":-2.5,"a.b":7}],"x":[],"a.b":{"x":[true,false]}}`,
 	}
 }
 
@@ -319,6 +320,7 @@ func c09Vocabulary() []c09Step {
 		d(true, each), d(true, each, each), d(true, each, idx(0)), d(true, idx(1)),
 		d(false, rng(0, 1)), d(false, rng(-1, -1)), d(false, rng(1, 9)), d(false, rng(2, 1)), d(false, rng(-1, 2), each), d(true, rng(1, -1), each), d(false, each, rng(0, 1)),
 		p(c09Pipe{"x", ""}), p(c09Pipe{"x", "string"}, c09Pipe{"y", ""}), p(c09Pipe{"y", "number"}), p(c09Pipe{"zz", ""}, c09Pipe{"x", "number"}),
+		p(c09Pipe{"'a.b'", ""}), p(c09Pipe{"x", ""}, c09Pipe{"'a.b'", ""}), p(c09Pipe{"'a.b'", "string"}, c09Pipe{"y", "string"}), {kind: "key", key: "p::q", quoted: true},
 	}
 }
 
